@@ -52,10 +52,10 @@ func c13IsQuote(ch rune) bool {
 }
 
 type c13Out struct {
-	ok   bool   // terminated
-	val  string // decoded value
-	end  int    // index just after the closing quote
-	bad  bool   // a U+hex escape denoted something that is not a Unicode scalar value
+	ok  bool   // terminated
+	val string // decoded value
+	end int    // index just after the closing quote
+	bad bool   // a U+hex escape denoted something that is not a Unicode scalar value
 }
 
 // c13Ref decodes the literal starting at src[0] (an opening quote) under one of
